@@ -80,6 +80,11 @@ CHECKS = {
   text="Every pair of a 193-value i32 boundary lattice x all 12 binary operations, a 50-value float/mixed lattice (zeros, subnormals, 2^31/2^53 edges, huge, inf, NaN), unary operations, and random pairs are executed on the real SimpleNumber methods and through the arithmetic/bitwise instructions on both stores; each observed result is compared with an independent exact-or-unit reference. Held-on-observed, not a proof: operands outside lattice+sample are not explored.",
   note="trusts: Rust i128 / IEEE f64 arithmetic and libm powf/fmod as the reference; the two admissible-set choices recorded in DESIGN C09",
   design="DESIGN.md §5 C09"),
+ "C10": dict(
+  technique="runtime monitor: exhaustive truth matrix (every value type x every testing construct) against the two-falsy rule, plus an online host-event log (every identifier evaluation is a recorded resolve call) compared with an independent reference evaluator's log",
+  text="Every value-type representative (empty and non-empty) is supplied as `$` to 26 programs over ?> !> && || ^^ !! ?? on both stores and to Xor/Not/Tis as single instructions; results are compared with 'false iff unit or $!'. 38 templates of conditionals / else-chains / && / || over identifiers that only the scripted host can answer are run under every assignment of truthy and falsy host values, and random logic-dense programs on top: the recorded sequence of resolve calls and the final value must equal the reference evaluator's (right operand only when needed, only the selected arm, conditions in order). Held on the programs observed.",
+  note="trusts: the reference evaluator (eval.rs) for the expected resolve sequence; left-to-right operand order",
+  design="DESIGN.md §5 C10"),
 }
 
 NOT_YET = "check not built yet in this round (work in progress; will be claimed once its monitor exists)"
